@@ -736,6 +736,58 @@ fn raw_cases(tier: Tier) -> Vec<RawCase> {
 		let must = g.len() >= 66;
 		v.push(RawCase { family: "garbage-act3-corpus", role: Role::RawInitiator, script: vec![act(vec![]), Step::Bytes(g), Step::Close], expect: Expect::Nothing { must_reject: must }, pong: None });
 	}
+	// R3b: a message the node deliberately ignores (a gossip query using the zlib encoding it does not support, an
+	// unreadable gossip message: answered with a warning at most, never a disconnection) followed by ordinary
+	// messages shorter and longer than it: everything after the ignored message still arrives, intact and in order
+	for role in both_roles() {
+		let hs = raw::handshake_steps(role);
+		let chain = bitcoin::constants::ChainHash::using_genesis_block(bitcoin::Network::Testnet).as_bytes().to_vec();
+		let mut ignorable: Vec<(u16, Vec<u8>)> = Vec::new();
+		for ids in [0usize, 8, 64] {
+			// query_short_channel_ids: chain_hash, u16 len, encoding type 1 (zlib) + data
+			let mut p = chain.clone();
+			p.extend_from_slice(&((1 + ids) as u16).to_be_bytes());
+			p.push(1);
+			p.extend_from_slice(&vec![0x5a; ids]);
+			ignorable.push((261, p));
+		}
+		{
+			// reply_channel_range: chain_hash, first_blocknum, number_of_blocks, sync_complete, u16 len, zlib-encoded ids
+			let mut p = chain.clone();
+			p.extend_from_slice(&100u32.to_be_bytes());
+			p.extend_from_slice(&10u32.to_be_bytes());
+			p.push(1);
+			p.extend_from_slice(&9u16.to_be_bytes());
+			p.push(1);
+			p.extend_from_slice(&[0x33; 8]);
+			ignorable.push((264, p));
+		}
+		// unreadable gossip messages (too short to be a channel_update / node_announcement / channel_announcement)
+		ignorable.push((T_CHANNEL_UPDATE, vec![0x11; 10]));
+		ignorable.push((T_NODE_ANNOUNCEMENT, vec![0x22; 70]));
+		ignorable.push((T_CHANNEL_ANNOUNCEMENT, vec![0x44; 300]));
+		let follow = [Msg::Shutdown { len: 0, tag: 821 }, Msg::Custom { len: 0, tag: 822 }, Msg::Custom { len: 18, tag: 823 }, Msg::TxAbort { len: 400, tag: 824 }];
+		for (ty, payload) in ignorable.iter() {
+			for k in 1..=follow.len() {
+				for start in 0..follow.len() {
+					let seq: Vec<&Msg> = (0..k).map(|j| &follow[(start + j) % follow.len()]).collect();
+					let mut script = hs.clone();
+					script.push(Step::Init);
+					// one ordinary message first: the ignored message is met in the middle of the stream
+					let (t0, p0) = follow[0].wire();
+					script.push(Step::Msg { ty: t0, payload: p0 });
+					let mut obs: Vec<Ev> = follow[0].expected();
+					script.push(Step::Msg { ty: *ty, payload: payload.clone() });
+					for m in seq.iter() {
+						let (t, p) = m.wire();
+						script.push(Step::Msg { ty: t, payload: p });
+						obs.extend(m.expected());
+					}
+					v.push(RawCase { family: "ignored-gossip-then-more", role, script, expect: Expect::Exactly { obs, must_reject: Some(false) }, pong: None });
+				}
+			}
+		}
+	}
 	// R3: well-formed messages before the raw peer's Init, and (control) after it
 	for role in both_roles() {
 		let hs = raw::handshake_steps(role);
